@@ -13,9 +13,20 @@ import (
 )
 
 // buildSource builds a sketch by a seeded history under model monitoring.
+// caseBudget returns the exactness budget shared by all sources of one case.
+func caseBudget(c *core.Ctx) *gen.Budget {
+	if b, ok := c.Scratch["budget"].(*gen.Budget); ok {
+		return b
+	}
+	b := &gen.Budget{}
+	c.Scratch["budget"] = b
+	return b
+}
+
 func buildSource(c *core.Ctx, r *rng.Rng, name string, exact bool, m *gen.Map, spec gen.StoreSpec, maxOps int) *skState {
 	pattern := []string{"mixed", "mixed+zeros", "pos", "neg", "zeros+neg", "zeros", "single", "mixed+zeros"}[r.Intn(8)]
 	h := newHistGen(c, r, m, spec, pattern, randSigmaIdx(r, 300))
+	h.budget = caseBudget(c) // sources of one case get merged and concatenated: one budget for all of them
 	h.exact = exact
 	h.anySpec = true
 	h.sameTarget = true
